@@ -494,7 +494,7 @@ func main() {
 							{op: "GetCardByID", args: argsFor("GetCardByID", 1), ctrl: 1, path: p1, delay: 4 * T / 10, client: 0},
 							{op: "GetCardByID", args: argsFor("GetCardByID", 2), ctrl: 2, path: p2, delay: 0, client: 0},
 						}
-						scenarios = append(scenarios, callScenario(fmt.Sprintf("3calls-mixed/bind=%d/%s+%s+%s", bind, p0, p1, p2), bind, c3, 2, false))
+						scenarios = append(scenarios, callScenario(fmt.Sprintf("3calls-mixed/bind=%d/%s+%s+%s/unbounded", bind, p0, p1, p2), bind, c3, -1, false))
 					}
 				}
 			}
@@ -508,8 +508,8 @@ func main() {
 				for k := 0; k < 3; k++ {
 					calls = append(calls, call{op: "GetCardByID", args: argsFor("GetCardByID", k), ctrl: k, path: p, delay: d, client: 0})
 				}
-				scenarios = append(scenarios, callScenario(fmt.Sprintf("3calls/bind=60001/%s:%v", p, d), 60001, calls, 2, false))
-				scenarios = append(scenarios, callScenario(fmt.Sprintf("3calls/bind=0/%s:%v", p, d), 0, calls, 2, false))
+				scenarios = append(scenarios, callScenario(fmt.Sprintf("3calls/bind=60001/%s:%v/unbounded", p, d), 60001, calls, -1, false))
+				scenarios = append(scenarios, callScenario(fmt.Sprintf("3calls/bind=0/%s:%v/unbounded", p, d), 0, calls, -1, false))
 			}
 		}
 	}
@@ -597,7 +597,7 @@ func main() {
 	if r.Worker == "" && r.Replay == "" {
 		racePass(r)
 	}
-	r.Rule("2 (thorough also 3) harness threads x {bind port 0, fixed} x {one shared client, two clients (also: same fixed port on the wildcard and on a specific local address)} x {same, different controller} x paths {udp,tcp,broadcast}^2 x reply delays {0,0.4T,0.8T}^2 x start offset {0,0.3T} x 3 operation pairs; every one of the 31 directed operations concurrently with itself and with PutCard (<= 1 preemption; quick: connected-UDP path only); a failing call (silent controller, stalled / refused / reset TCP) followed by and concurrent with calls that must succeed; three staggered calls on one fixed port; discovery alongside a directed call; Listen with two events and the stop signal at 5 offsets; two threads x two sequential calls; for each scenario ALL interleavings with <= 2 preemptions (thorough: the two-call scenarios under ALL interleavings without bound, three-call families with <= 2 preemptions). distinct = distinct per-call outcome labels observed")
+	r.Rule("2 (thorough also 3) harness threads x {bind port 0, fixed} x {one shared client, two clients (also: same fixed port on the wildcard and on a specific local address)} x {same, different controller} x paths {udp,tcp,broadcast}^2 x reply delays {0,0.4T,0.8T}^2 x start offset {0,0.3T} x 3 operation pairs; every one of the 31 directed operations concurrently with itself and with PutCard (<= 1 preemption; quick: connected-UDP path only); a failing call (silent controller, stalled / refused / reset TCP) followed by and concurrent with calls that must succeed; three staggered calls on one fixed port; discovery alongside a directed call; Listen with two events and the stop signal at 5 offsets; two threads x two sequential calls; for each scenario ALL interleavings with <= 2 preemptions (thorough: the two-call scenarios under ALL interleavings without bound, three-call families with <= 3 preemptions). distinct = distinct per-call outcome labels observed")
 	r.Assume("sequentially consistent memory; scheduling points at mutex, channel, socket and sleep operations; unsynchronised accesses to locals shared with goroutine closures and to package-level variables of every package of the module (uhppote, types, messages, encoding/*) are caught by the vector-clock detector; struct fields and heap objects reached through pointers only by the free-running -race pass")
 	r.Assume("the simulated network orders consecutive operations on one socket (fd mutex atomics), as the real net package does")
 	r.Finish()
